@@ -58,6 +58,7 @@ def scene_valid(shapes, conns, generic=True, family=None):
     if family == 'contains':
         return A.contains_scene_valid(shapes, conns, generic)
     polys = list(shapes.values())
+    corners = set(tuple(v) for P in polys for v in P) if family == 'shared' else ()
     bs = [A.bbox(P) for P in polys]
     for i in range(len(bs)):
         for j in range(i + 1, len(bs)):
@@ -65,8 +66,8 @@ def scene_valid(shapes, conns, generic=True, family=None):
                 return False
     pts = []
     for (s, d) in conns.values():
-        if s == d or A.in_any_bbox(polys, s) or A.in_any_bbox(polys, d):
-            return False
+        if s == d or (A.in_any_bbox(polys, s) and tuple(s) not in corners) or (A.in_any_bbox(polys, d) and tuple(d) not in corners):
+            return False          # family 'shared': an endpoint may also coincide exactly with a shape vertex
         pts += [s, d]
     if generic and A.scene_has_degenerate_chord(polys, sorted(set(pts))):
         return False
@@ -120,7 +121,8 @@ def simulate(ops, trans, generic=True, family=None):
 
 def gen_history(rng, trans, orth, w_add=28, w_move=30, w_resize=10, w_del=17, shared=False):
     """shared: 2-4 connectors, most of which share an endpoint POSITION with an earlier connector (coincident source points, coincident
-    destination points, one's source on another's destination); endpoint moves may land exactly on another connector's endpoint"""
+    destination points, one's source on another's destination); endpoint moves may land exactly on another connector's endpoint or on a
+    shape vertex (the only boundary points allowed)"""
     ops, shapes, conns = [], {}, {}
     nid = [1]
 
@@ -130,9 +132,14 @@ def gen_history(rng, trans, orth, w_add=28, w_move=30, w_resize=10, w_del=17, sh
             P = A.poly_in_box(rng, (x, y, x + w, y + h))
             yield P
 
+    fam = 'shared' if shared else None
+
+    def corner():
+        return tuple(rng.choice(shapes[rng.choice(sorted(shapes))]))
+
     def try_op(o):
         s2, c2 = seq_apply(shapes, conns, o)
-        if scene_valid(s2, c2):
+        if scene_valid(s2, c2, True, fam):
             ops.append(o)
             shapes.clear(); shapes.update(s2); conns.clear(); conns.update(c2)
             return True
@@ -158,6 +165,8 @@ def gen_history(rng, trans, orth, w_add=28, w_move=30, w_resize=10, w_del=17, sh
                     s = o[1]
                 else:
                     s, d = o[0], (d if rng.chance(3, 4) else (o[1][0] + rng.range(-4, 4), o[1][1] + rng.range(-4, 4)))
+            if shared and not orth and shapes and rng.chance(1, 5):
+                s = corner()                                   # an endpoint exactly on a shape vertex
             if s != d and try_op(('C', 100 + c, s, d)):
                 break
     ops.append(('P',))
@@ -198,6 +207,8 @@ def gen_history(rng, trans, orth, w_add=28, w_move=30, w_resize=10, w_del=17, sh
                 p = A.free_point(rng, list(shapes.values()), R, use_bbox=True)
                 if shared and len(conns) > 1 and rng.chance(1, 2):
                     p = conns[rng.choice([x for x in sorted(conns) if x != c])][rng.below(2)]      # onto another connector's endpoint
+                elif shared and not orth and shapes and rng.chance(1, 2):
+                    p = corner()                                                                # onto a shape vertex
                 if try_op(('E', c, rng.below(2), p)):
                     done = True
                     break
@@ -282,6 +293,7 @@ def evaluate(exe, drv, qdrv, hists, stats, with_model=True, samples=None):
         model = parse_model_line(ml)
         per_hist.append((snaps, model))
         h['_snaps'] = snaps
+        h['_disp_raw'] = [d.get('disp_raw', {}) for d in run['dumps']]
         nP = sum(1 for o in h['ops'] if o[0] == 'P')
         if run['exc'] is not None:
             fails.append(dict(kind='exception', what='assertion / exception inside libavoid on a legal history', exception=run['exc'], hist=h))
@@ -419,10 +431,21 @@ def evaluate(exe, drv, qdrv, hists, stats, with_model=True, samples=None):
                     stats['contains_left_behind_nontrivial'] += 1
         model_bad = cm is not None and (ci < cm - TOL if inside_now else abs(ci - cm) > TOL)
         if abs(ci - cf) > TOL or model_bad:
+            # classifier of the known finding selective_reroute_not_flagged: polyline; the connector kept the (still valid) route it had at
+            # the previous dump, its ends were not moved, a fresh router is cheaper, and the selective-reroute test as coded, re-evaluated for
+            # every shape that left its place in between (with the shape's old polygon and the real route length), flags nothing
+            silent = None
+            hs = h.get('_snaps') or []
+            if h['mode'] == 0 and k >= 1 and ci > cf + TOL and not (cm is not None and ci < cm - TOL) and len(route) >= 2 and k < len(hs) and \
+                    hs[k - 1][1].get(c) == (s, t) and h['_disp_raw'][k].get(c) == h['_disp_raw'][k - 1].get(c):
+                ppos = [i for i, o in enumerate(h['ops']) if o[0] == 'P']
+                silent = A.reroute_test_silent(h['ops'][ppos[k - 1] + 1:ppos[k]], h['trans'], hs[k - 1][0], route)
             fails.append(dict(step, kind='cost', what='route cost after the history differs from routing from scratch '
                               '(incremental %.9g, fresh router %.9g, model optimum %s%s)' % (ci, cf, cm, ' = lower bound only: an endpoint is '
                               'inside a shape' if inside_now else ''),
-                              incremental_cost=ci, fresh_cost=cf, model_optimum=cm, shapes_containing_an_endpoint=inside_now))
+                              incremental_cost=ci, fresh_cost=cf, model_optimum=cm, shapes_containing_an_endpoint=inside_now,
+                              route_unchanged_and_selective_reroute_test_silent=bool(silent),
+                              euclidean_length_incremental=A.polyline_length(route), euclidean_length_fresh=A.polyline_length(froute) if len(froute) >= 2 else None))
     return fails
 
 
@@ -464,7 +487,16 @@ def report(res, exe, drv, qdrv, fails, stats, do_shrink=True):
             if not res.violation(obj, fingerprint='degenerate_chord'):
                 continue
         key = (id(h), f['kind'])
-        if key in seen or len(res.violations) >= 6:
+        if key in seen:
+            continue
+        if f['kind'] == 'cost' and f.get('route_unchanged_and_selective_reroute_test_silent'):
+            seen.add(key)
+            stats['known_reroute_silent'] = stats.get('known_reroute_silent', 0) + 1
+            obj = dict(f, hist=None, config=h['cfg'], mode=h['mode'], segmentPenalty=h['pen'], transactions=h['trans'],
+                       history=[op_str(o) for o in h['ops']], script=hist_script(h['ops'], h['mode'], h['pen'], h['trans']))
+            if not res.violation(obj, fingerprint='selective_reroute_not_flagged'):
+                continue
+        if len(res.violations) >= 6:
             continue
         seen.add(key)
         ops = h['ops']
@@ -517,7 +549,10 @@ def run(tier):
     res = C.Result(PID, tier, 'proof')
     info = C.prove(res, PID, gen_modules=['Geometry'])
     res.assumptions = [
-        'scenes: convex integer polygons whose boxes stay separated by >= 1 and endpoints outside every bounding box after every edit',
+        'scenes: convex integer polygons whose boxes stay separated by >= 1 and endpoints outside every bounding box after every edit; contains family: an '
+        'endpoint may instead lie strictly inside a shape (orthogonal: rectangles only) - route_ok exempts a shape only while it contains an endpoint in the CURRENT '
+        'scene, and there the reference optimum (which ignores such a shape for the whole connector, libavoid only for that endpoint\'s edges) is a lower bound; '
+        'shared family: several connectors with exactly coincident endpoints, endpoints also exactly on shape vertices (no other boundary points)',
         'generic stream rejects scenes with a degenerate chord between graph vertices (the known finding F-b has its own stream)',
         'orthogonal mode: incremental vs fresh router only (its optimum is C05\'s subject); polyline: also vs the reference router optimum',
         'Router::UseLeesAlgorithm=false, pins, junctions, clusters, checkpoints are not exercised']
@@ -543,10 +578,10 @@ def run(tier):
     for _ in range(6 if tier == 'quick' else 40):
         hists.append(dict(cfg='chord-poly-pen0', mode=0, pen=0, trans=1, ops=gen_chord_history(rng), generic=False))
     for (name, mode, pen, trans) in SHARED_CONFIGS:
-        for k in range(n_per):
+        for k in range(8 if tier == 'quick' else n_per):
             ops = gen_history(rng, trans, mode == 1, w_add=20, w_move=50, w_resize=10, w_del=8, shared=True) if k % 2 else \
                 gen_history(rng, trans, mode == 1, w_add=5, w_move=65, w_resize=10, w_del=10, shared=True)
-            hists.append(dict(cfg=name, mode=mode, pen=pen, trans=trans, ops=ops, generic=True))
+            hists.append(dict(cfg=name, mode=mode, pen=pen, trans=trans, ops=ops, generic=True, family='shared'))
     n_cont = 14 if tier == 'quick' else 120
     for (name, mode, pen, trans) in CONTAINS_CONFIGS:
         k = 0
@@ -572,6 +607,7 @@ def run(tier):
         'histories_by_config': stats['by_config'], 'ops_per_history_histogram': {str(k): v for k, v in sorted(stats['ops_hist'].items())},
         'op_kind_counts': stats['op_kinds'], 'scene_checks': stats['scene_checks'], 'empty_transaction_checks': stats['noop_checks'],
         'route_comparisons': stats['comparisons'], 'known_degenerate_chord_cases': stats['known_degenerate_chord'],
+        'known_selective_reroute_not_flagged_cases': stats.get('known_reroute_silent', 0),
         'corpus_histories': stats['corpus'], 'exhaustive': False,
         'contains_family': {'what': 'histories with a connector endpoint strictly inside a shape that later leaves it (move / resize / delete; moved '
                                     'back; another shape moved or added onto it) followed by a change that recomputes the endpoint\'s visibility',
@@ -595,7 +631,8 @@ def replay(path):
     qdrv = C.ocaml_build('c06', 'C06.v', 'c06_driver.ml', 'c06_model.ml')
     ops = parse_ops(j.get('minimal_history') or j['history'])
     h = dict(cfg='replay', mode=j['mode'], pen=j['segmentPenalty'], trans=j['transactions'], ops=ops, generic=False,
-             family='contains' if str(j.get('config', '')).startswith('contains') or simulate(ops, j['transactions'], generic=False) is None else None)
+             family='shared' if str(j.get('config', '')).startswith('shared') else
+             'contains' if str(j.get('config', '')).startswith('contains') or simulate(ops, j['transactions'], generic=False) is None else None)
     fails = evaluate(exe, drv, qdrv, [h], new_stats(), True, None)
     for f in fails:
         f.pop('hist', None)
@@ -620,7 +657,9 @@ META = {
                 'transaction is the identity and returns false; the model\'s routes depend only on the final scene; the reflection estimate of '
                 'the selective-reroute test is a true lower bound, attained at the code\'s x*. Tie (C, three-way, every run): random legal '
                 'histories on one Avoid::Router vs the extracted queue model (scene, connector ends, empty actionList), vs a fresh Router and vs '
-                'the extracted reference router optimum (route cost to 1e-6), route_ok on every route, bit-identical routes over empty transactions.',
+                'the extracted reference router optimum (route cost to 1e-6), route_ok on every route, bit-identical routes over empty transactions. Streams: '
+                'generic, move-heavy, degenerate chord, "contains" (an endpoint starts strictly inside a shape that is then moved / resized / deleted away, moved back, '
+                'or replaced by another shape, followed by a change that recomputes the endpoint\'s visibility) and "shared" (several connectors with exactly coincident endpoints).',
         'design_ref': 'DESIGN.md 5.6'},
     'level_note': 'partial: the refinement theorem covers the whole scene, shapes and connector ends (queue_refines_sequential_full; pin-move '
                   'updates are proved for the generalised update function, the op log has no pin-move op); the clamped reflection estimate is proved a lower '
